@@ -159,14 +159,17 @@ class Arr:
         raise PyRaise(ValueError("The truth value of an array with more than one element is ambiguous"))
 
     def sym_set(self, it):
+        if getattr(it, "generic_loops", False) and is_sym(self.e):
+            return GenericSet(self)
         return Opaque("set(array)")
 
     def sym_sum(self, it):
         """sum(mask) of a boolean array: the number of selected rows -- non-negative, positive iff some row is selected"""
         if not _is_boolish(self.e):
-            raise EngineError("sum of a generic numeric array (needs the sum abstraction)")
+            from .sigma import sigma
+            return sigma(it, self)
         ex = any_(it, self)
-        c = z3.Int(f"count[{self.space.name},{_key(_zb(self.mask))},{_key(truth_z(self.e))}]")
+        c = _count(it, self.space, z3.And(_zb(self.mask), truth_z(self.e)))
         it.ctx.facts.append(z3.And(c >= 0, (c >= 1) == (truth_z(ex) if not isinstance(ex, bool) else z3.BoolVal(ex))))
         return SV(c)
 
@@ -205,6 +208,8 @@ class Arr:
             return self     # x[:, np.newaxis]: a column vector; broadcasting against 2-D arrays is per column
         if isinstance(key, Series):
             key = key.arr()
+        if type(key).__name__ == "Cat":
+            return type(key)([self.sym_getitem(it, part) for part in key.parts])
         if isinstance(key, Arr):
             ke = key.e
             if _is_boolish(ke):
@@ -362,6 +367,7 @@ def elementwise(it, fn, *args):
 
 def _count(it, space, mask):
     """number of rows selected by a mask: non-negative, and at least one if the generic row is selected"""
+    mask = z3.simplify(mask)
     c = z3.Int(f"count[{space.name},{_key(mask)}]")
     if it is not None:
         it.ctx.axiom(z3.And(c >= 0, z3.Implies(mask, c >= 1)))
@@ -549,6 +555,12 @@ class Series:
     def __init__(self, table, col):
         self.table = table
         self.col = col
+
+    def sym_set(self, it):
+        return self.arr().sym_set(it)
+
+    def sym_sum(self, it):
+        return self.arr().sym_sum(it)
 
     def arr(self, view=False):
         return Arr(self.table.space, self.table.cols[self.col], True, owner=(self.table, self.col) if view else None)
@@ -743,6 +755,14 @@ class Mat:
                 return
         if not isinstance(col, int):
             raise EngineError("ppc matrix store with non-constant column")
+        if getattr(rows, "is_group_keys", False):
+            # ppc[b, col] = v with (b, v) = _sum_by_group(...): one row per distinct key, holding the sum of the group
+            if it.ctx.merge_mode:
+                raise CannotMerge()
+            self.group_stores = getattr(self, "group_stores", {})
+            self.group_stores[col] = (rows, val)
+            self.written.append(("group", col))
+            return
         if isinstance(rows, SegRows):
             sp = self.segments[rows.seg]
             segmask = self.seg_masks.get(rows.seg, True)
@@ -944,6 +964,21 @@ def map_generic(it, arr, fn):
     """[f(x) for x in column] -> column with element f(e)"""
     a = arr.arr() if isinstance(arr, Series) else arr
     return Arr(a.space, fn(a.e), a.mask)
+
+
+class GenericSet:
+    """set(column): iterated for its generic member -- a value that occurs in the column (rows with that value exist)"""
+
+    def __init__(self, arr):
+        self.arr = arr
+        z = to_z(arr.e)
+        self.member = SV(z3.Const(f"member@set[{arr.space.name},{_key(z)}]", z.sort()))
+
+    def generic_row(self):
+        return self.arr.space, True, self.member
+
+    def make_like(self, e):
+        raise EngineError("comprehension over a generic set")
 
 
 class ZipArr:
